@@ -654,3 +654,62 @@ Proof.
   intros Hinv Hr. destruct (cause_spec s o cs Hinv Hr) as [Hne Hall].
   split; [exact Hne|]. intros cw Hin. apply Hall. by apply elem_of_list_In.
 Qed.
+
+(* ---- a rename / id change / removal really releases the key (C04: "a key released by a rename, id
+   change or removal is immediately reusable"): afterwards no child of the container carries it,
+   so by [refused_iff_pre] the next add / rename that needs it is accepted ------------------------ *)
+Section released.
+  Context (s : state) (Hinv : Inv s).
+
+  (* Message.UpdateName releases the old name in the sender interface *)
+  Theorem rename_releases_name m M i new :
+    msgs s !! m = Some M → m_sender M = Some i → m_name M ≠ new →
+    (step s (MsgUpdateName m new)).2 = Ok →
+    ¬ iface_sends (step s (MsgUpdateName m new)).1 i (λ M', m_name M' = m_name M).
+  Proof.
+    intros HM Hs Hne Hok.
+    pose proof (inv_step s (MsgUpdateName m new) Hinv I) as Hinv'.
+    revert Hok Hinv'. cbn [step]. unfold msg_update_name. rewrite HM, Hs.
+    destruct (decide (m_name M = new)); [done|].
+    destruct (inv_sent_up s Hinv _ _ _ HM Hs) as (Ii & HI & _). rewrite HI.
+    destruct (i_sentNames Ii !! new) eqn:Hnm; [done|]. cbn. intros _ Hinv' Hsend.
+    eapply (iface_name_taken _ Hinv' i) in Hsend; [|cbn; by rewrite lookup_insert].
+    cbn in Hsend. unfold modify_key in Hsend. rewrite lookup_insert_ne, lookup_delete in Hsend by done.
+    by destruct Hsend.
+  Qed.
+
+  (* Message.UpdateID on a message with a static CAN-ID releases that CAN-ID in the sender
+     interface and on its bus *)
+  Theorem update_id_releases_static m M i Ii new :
+    msgs s !! m = Some M → m_sender M = Some i → ifaces s !! i = Some Ii → m_hasStatic M = true →
+    (step s (MsgUpdateID m new)).2 = Ok →
+    let s' := (step s (MsgUpdateID m new)).1 in
+    ¬ iface_sends s' i (has_static (m_static M)) ∧
+    ∀ b, i_parent Ii = Some b → ¬ bus_carries s' b (has_static (m_static M)).
+  Proof.
+    intros HM Hs HI Hst Hok.
+    pose proof (inv_step s (MsgUpdateID m new) Hinv I) as Hinv'.
+    revert Hok Hinv'. cbn [step]. unfold msg_update_id. rewrite HM, Hs, HI, Hst. cbn.
+    rewrite andb_false_r.
+    destruct (i_sentIDs Ii !! new) eqn:Hid; [done|]. cbn. intros _ Hinv'. split.
+    - intros Hsend. eapply (iface_static_taken _ Hinv' i) in Hsend; [|cbn; by rewrite lookup_insert].
+      cbn in Hsend. rewrite lookup_delete in Hsend. by destruct Hsend.
+    - intros b Hp Hc. destruct (inv_bus_up s Hinv _ _ _ HI Hp) as (B & HB & _).
+      rewrite Hp in Hinv', Hc. cbn [upd_parent_bus] in Hinv', Hc. rewrite (alter_as_insert _ _ _ _ HB) in Hinv', Hc.
+      eapply (bus_static_taken _ Hinv' b) in Hc; [|cbn; by rewrite lookup_insert].
+      cbn in Hc. rewrite lookup_delete in Hc. by destruct Hc.
+  Qed.
+
+  (* NodeInterface.RemoveSentMessage releases the name of the message in the interface *)
+  Theorem removal_releases_name i Ii m M :
+    ifaces s !! i = Some Ii → m ∈ i_sent Ii → msgs s !! m = Some M →
+    ¬ iface_sends (step s (IfRemoveSent i m)).1 i (λ M', m_name M' = m_name M).
+  Proof.
+    intros HI Hin HM.
+    pose proof (inv_step s (IfRemoveSent i m) Hinv I) as Hinv'.
+    revert Hinv'. cbn [step]. unfold iface_remove_sent. rewrite HI. rewrite decide_True by done. rewrite HM.
+    destruct (m_hasStatic M); cbn; intros Hinv' Hsend.
+    all: eapply (iface_name_taken _ Hinv' i) in Hsend; [|cbn; by rewrite lookup_insert];
+      cbn in Hsend; rewrite lookup_delete in Hsend; by destruct Hsend.
+  Qed.
+End released.
